@@ -1125,6 +1125,8 @@ type hbSpec struct {
 	Sizes, Ages, Lags []int
 	Stagnant          bool // the population-level stagnation counter is far past DropOffAge+5 (delta coding at the next epoch)
 	Unsorted          bool // genes are listed in descending innovation order (legal for the readers and for duplication, not produced by the operators)
+	DiscSensor        bool // no genome holds a gene leaving sensor 3 (connect-sensors has work to do)
+	MinHidden         int  // every genome has at least this many hidden nodes (species i: MinHidden + i)
 	Cross             bool // the members of a species other than its first and last resemble the NEXT species' genomes (a member's offspring may be nearest to another species' representative)
 	SelfLoop          bool // every genome carries a self-loop gene on the output that is NOT flagged recurrent (legal for the readers and constructors, not produced by add-link)
 }
@@ -1190,8 +1192,17 @@ func buildHandBuilt(sp hbSpec, opts *neat.Options) *genetics.Population {
 				if sp.Cross && i%2 == 1 {
 					return (si+1)%len(sp.Sizes) - si
 				}
-				return 0
+				return sp.MinHidden
 			}(), i)
+			if sp.DiscSensor {
+				var kept []GeneSpec
+				for _, g := range spec.Genes {
+					if g.In != 3 {
+						kept = append(kept, g)
+					}
+				}
+				spec.Genes = kept
+			}
 			if sp.SelfLoop {
 				spec.Genes = append(spec.Genes, GeneSpec{In: 4, Out: 4, W: 0.7, Innov: int64(4 + 2*si), Mut: 0.7, En: true, Trait: 0})
 			}
@@ -1217,6 +1228,7 @@ func buildHandBuilt(sp hbSpec, opts *neat.Options) *genetics.Population {
 	if sp.Unsorted {
 		maxK += 2
 	}
+	maxK += sp.MinHidden
 	if sp.SelfLoop {
 		maxK++
 	}
